@@ -186,7 +186,8 @@ type SrvReq struct {
 	Conn   *Conn   // Connection that the request belongs to
 
 	status     reqStatus
-	flushreq   *SrvReq
+	flushreq   *SrvReq // first of the flush requests waiting for this request
+	flushnext  *SrvReq // if this is a flush request: the next one waiting for the same request
 	prev, next *SrvReq
 }
 
@@ -406,13 +407,13 @@ func (req *SrvReq) Respond() {
 		if req.flushreq != nil {
 			var p *SrvReq
 			r := nextreq.flushreq
-			for ; r != nil; p, r = r, r.flushreq {
+			for ; r != nil; p, r = r, r.flushnext {
 			}
 
 			if p == nil {
 				nextreq.flushreq = req.flushreq
 			} else {
-				nextreq = req.flushreq
+				p.flushnext = req.flushreq
 			}
 		}
 
@@ -449,7 +450,7 @@ func (req *SrvReq) Respond() {
 	// respond to the flush messages
 	// can't send the responses directly to conn.reqout, because the
 	// the flushes may be in a tag group too
-	for freq := flushreqs; freq != nil; freq = freq.flushreq {
+	for freq := flushreqs; freq != nil; freq = freq.flushnext {
 		verifPoint("respond.flushes", req, 0, 0)
 		freq.Respond()
 	}
